@@ -18,14 +18,18 @@ from . import orch
 from . import scen
 
 PROPS = {
-    "C01": {"scenarios": ["roundtrip.uvl"]},
+    "C01": {"scenarios": ["roundtrip.uvl", "roundtrip.uvl", "roundtrip.uvl", "roundtrip.mixed"]},
     "C02": {"scenarios": ["roundtrip.json", "roundtrip.fide", "roundtrip.glencoe",
-                          "roundtrip.afm", "roundtrip.uvl", "third-party", "uvl-peer"]},
+                          "roundtrip.afm", "roundtrip.uvl", "third-party", "uvl-peer",
+                          "roundtrip.mixed"]},
     "C04": {"scenarios": ["uvl-peer", "uvl-peer", "roundtrip.uvl"]},
-    "C05": {"scenarios": ["roundtrip.json"]},
-    "C06": {"scenarios": ["roundtrip.afm"]},
-    "C07": {"scenarios": ["roundtrip.fide"]},
-    "C08": {"scenarios": ["roundtrip.glencoe"]},
+    "C05": {"scenarios": ["roundtrip.json", "roundtrip.json", "roundtrip.json",
+                          "roundtrip.mixed"]},
+    "C06": {"scenarios": ["roundtrip.afm", "roundtrip.afm", "roundtrip.afm", "roundtrip.mixed"]},
+    "C07": {"scenarios": ["roundtrip.fide", "roundtrip.fide", "roundtrip.fide",
+                          "roundtrip.mixed"]},
+    "C08": {"scenarios": ["roundtrip.glencoe", "roundtrip.glencoe", "roundtrip.glencoe",
+                          "roundtrip.mixed"]},
     "C09": {"scenarios": ["third-party"]},
     "C12": {"scenarios": ["serialise"]},
     "C17": {"scenarios": ["metrics-session"]},
